@@ -150,16 +150,17 @@ class Check(PropertyCheck):
 
     # ------------------------------------------------------------------ translate
     def translate(self):
-        try:
-            text, variant, _ = tr_cache.translate(pins=PINS)
-        except astutil.TranslateError as e:
-            raise TranslateError(str(e))
-        self.variant = variant
         GEN.mkdir(exist_ok=True)
         p = GEN / "C02Gen.v"
         for ext in (".vo", ".vok", ".vos", ".glob"):      # never let the cases run against a stale tie
             if p.with_suffix(ext).exists():
                 p.with_suffix(ext).unlink()
+        try:
+            text, variant, _ = tr_cache.translate(pins=PINS)
+        except astutil.TranslateError as e:
+            raise TranslateError(str(e))
+        self.variant = variant
+        self.gen_ok = True
         p.write_text(text)
         return [p]
 
@@ -205,6 +206,12 @@ class Check(PropertyCheck):
     # ------------------------------------------------------------------ correspondence
     def correspond(self):
         terms, descr = [], []
+        # the variant and chain of the regenerated tie; if the translator failed closed, the last
+        # variant it could still extract (or the shipped one) so that the comparison still runs
+        gen_ok = getattr(self, "gen_ok", False) and (GEN / "C02Gen.vo").exists()
+        b = lambda x: "true" if x else "false"
+        self.cases()
+        gv = "gen_variant gen_chain" if gen_ok else f"(mkVariant {b(self.variant[0])} {b(self.variant[1])}) code_chain"
         pre = ("Definition incl_b (a b : list (tname * code * val)) := forallb (fun x => existsb (call_eqb x) b) a.\n"
                "Definition out_eqb' (a b : res * list (tname * code * val)) := res_eqb (fst a) (fst b) && incl_b (snd a) (snd b) && incl_b (snd b) (snd a).\n")
         racy = 0
@@ -244,14 +251,14 @@ class Check(PropertyCheck):
             prog, ops = cp.cq_prog(case["prog"]), cp.cq_ops(case["ops"])
             exp_s = "[" + "; ".join(cp.cq_out(real[j][0]) for j in range(upto)) + "]"
             exp_f = "[" + "; ".join(cp.cq_out(real[j][1]) for j in range(upto)) + "]"
-            terms.append(f"list_eqb out_eqb' (firstn {upto} (run_hist gen_variant gen_chain content_id {prog} {FUEL} h0 {ops})) {exp_s}")
+            terms.append(f"list_eqb out_eqb' (firstn {upto} (run_hist {gv} content_id {prog} {FUEL} h0 {ops})) {exp_s}")
             descr.append((c["tag"], "shared backend", cp.to_json(case)))
-            terms.append(f"list_eqb out_eqb' (firstn {upto} (run_fresh gen_variant gen_chain content_id {prog} {FUEL} h0 {ops})) {exp_f}")
+            terms.append(f"list_eqb out_eqb' (firstn {upto} (run_fresh {gv} content_id {prog} {FUEL} h0 {ops})) {exp_f}")
             descr.append((c["tag"], "empty backend", cp.to_json(case)))
         self.stat("correspondence", "histories_with_racy_execution(prefix compared)", racy)
         self.ob("correspondence", "every generated history ran on the real scheduler", not crashed,
                 "\n".join(f"{t}: {m}" for t, m in crashed[:3]))
-        ok, failing, diags = run_bool_cases("C02", ["Model.CacheHist", "Gen.C02Gen"], pre, terms, chunk=40)
+        ok, failing, diags = run_bool_cases("C02", ["Model.CacheHist"] + (["Gen.C02Gen"] if gen_ok else []), pre, terms, chunk=40)
         self.ob("correspondence", f"model (variant extracted from the source: proj_valid={self.variant[0]}, catch_cache={self.variant[1]}) == "
                 f"real Scheduler + sqlite backend on {len(terms)} history runs (result and set of executed task bodies of every execution, "
                 f"shared backend and empty backend)", ok and not failing,
